@@ -209,6 +209,24 @@ class Oracle:
         return acc[0].to_bytes(self.total // 8, "big")
 
 
+def boolify(layout, val):
+    """the value with every one-bit unsigned integer field given as a bool -> (value, number of fields replaced)"""
+    n = [0]
+
+    def f(fld, v):
+        k = fld[0]
+        if k == "int" and fld[1] == 1 and not fld[2] and v in (0, 1):
+            n[0] += 1
+            return bool(v)
+        if k == "struct":
+            return {"f%d" % i: f(x, v["f%d" % i]) for i, x in enumerate(fld[1])}
+        if k == "array":
+            return [f(fld[2], e) for e in v]
+        return v
+    out = {"f%d" % i: f(x, val["f%d" % i]) for i, x in enumerate(layout)}
+    return out, n[0]
+
+
 def eqval(a, b):
     """library value vs oracle value"""
     if isinstance(b, dict):
@@ -323,6 +341,22 @@ class LayoutRunner:
         if built != canon and not (self.hasnan and len(built) == len(canon)):
             ctx.violation("build-differs:%s" % self.impl, "build(%r) = %s, oracle = %s" % (want, built.hex(), canon.hex()), self.case(data))
             self.failed = True
+            return
+        # one-bit unsigned fields given as Python booleans (flags filled in from comparisons): True is 1, False is 0
+        if self.k % 8 == 3:
+            wb, n = boolify(self.layout, want)
+            if n:
+                try:
+                    built2 = self.d.build(wb, **self.kw)
+                except Exception as e:
+                    ctx.violation("build-raises:%s:bool-for-bit:%s" % (self.impl, type(e).__name__), "build(%r) raised %s: %s" % (wb, type(e).__name__, e), self.case(data))
+                    self.failed = True
+                    return
+                if built2 != canon and not (self.hasnan and len(built2) == len(canon)):
+                    ctx.violation("build-differs:%s:bool-for-bit" % self.impl, "build(%r) = %s, oracle = %s" % (wb, built2.hex(), canon.hex()), self.case(data))
+                    self.failed = True
+                    return
+                ctx.count("builds_with_booleans_for_bits")
 
     def kind_of_diff(self, got, want):
         """which field kind differs first (mechanism key)"""
